@@ -805,27 +805,54 @@ func existsFalseEdges(fn *ssa.Function, r respRoot, existsFn, recorder *ssa.Func
 			if pred == nil || len(pred.Params) != 1 {
 				continue
 			}
+			// the predicate answers true whenever the element's Exists() does: its leaves are that call, the
+			// constant true, or whatever is evaluated only after Exists() said false (`r.Error.Exists() || r.Block == nil`)
 			isExists := true
 			nRet := 0
+			var existsCalls []*ssa.Call
+			for _, ec := range callsToFn(pred, existsFn) {
+				f, base := loadedField(ec.Call.Args[0])
+				root := stripConv(base)
+				if al, ok := root.(*ssa.Alloc); ok {
+					if cv := cellValue(al); cv != nil {
+						root = stripConv(cv)
+					}
+				}
+				if f == r.errFld && root == ssa.Value(pred.Params[0]) {
+					existsCalls = append(existsCalls, ec)
+				}
+			}
+			var existsFalse []Edge
+			for _, ec := range existsCalls {
+				_, fe := boolEdges(ec)
+				existsFalse = append(existsFalse, fe...)
+			}
 			for _, ret := range returnsOf(pred) {
 				for _, lf := range phiLeaves(returnValues(ret)[0]) {
 					nRet++
-					ec, isCall := lf.Val.(*ssa.Call)
-					if !isCall || staticCallee(ec) != existsFn {
-						isExists = false
-						continue
-					}
-					f, base := loadedField(ec.Call.Args[0])
-					root := stripConv(base)
-					if al, ok := root.(*ssa.Alloc); ok {
-						if cv := cellValue(al); cv != nil {
-							root = stripConv(cv)
+					isCall := false
+					for _, ec := range existsCalls {
+						if lf.Val == ssa.Value(ec) {
+							isCall = true
 						}
 					}
-					if f != r.errFld || root != ssa.Value(pred.Params[0]) {
-						isExists = false
+					if isCall {
+						continue
 					}
+					if k, isK := lf.Val.(*ssa.Const); isK && k.Value != nil && k.Value.String() == "true" {
+						continue
+					}
+					if len(existsFalse) > 0 && lf.Pred != nil && lf.Phi != nil && edgeGuarded(pred, lf.Pred, lf.Phi.Block(), existsFalse) {
+						continue
+					}
+					if len(existsFalse) > 0 && guardedByEdges(pred, ret, existsFalse) {
+						continue
+					}
+					isExists = false
 				}
+			}
+			if len(existsCalls) == 0 {
+				isExists = false
 			}
 			if !isExists || nRet == 0 {
 				continue
@@ -1090,6 +1117,9 @@ func resultReads(fn *ssa.Function, r respRoot, call *ssa.Call) []ssa.Instruction
 			if f == r.errFld {
 				return
 			}
+			if onlyNilTested(x) {
+				return // `resps[i].Block == nil`: looks at no result data
+			}
 			if r.owns(base) || stripConv(base) == r.val {
 				if re, _ := reach(siteOf(call), isInstr(in), nil); re {
 					out = append(out, in)
@@ -1228,6 +1258,10 @@ func propC07Nullable(c *Ctx, fn *ssa.Function, r respRoot, call *ssa.Call, key s
 				if g, _ := errorArmLeaves(fn, e, nonNil, nil); !g {
 					armOK = false
 				}
+			}
+			if len(isNilE) == 0 && literalNilTests(fn, pf) {
+				c.OK("R7.3", key+"/"+r.desc+"."+pf.Name()+"/null-is-error", call.Pos(), "the nil test of the pre-bound result pointer is made by a function literal handed to a search or a helper: present, which elements it covers and what follows is not decided")
+				continue
 			}
 			c.Check("R7.3", key+"/"+r.desc+"."+pf.Name()+"/null-is-error", call.Pos(), armOK, "a `\"result\": null` element of the batch reply (it sets the pre-bound pointer to nil) is turned into an error, for every element")
 		}
@@ -1934,4 +1968,80 @@ func isParamOrCopy(base ssa.Value, h *ssa.Function, i int) bool {
 		}
 	}
 	return false
+}
+
+// onlyNilTested: the address of a pointer member whose every use is a load that is compared with nil
+func onlyNilTested(fa *ssa.FieldAddr) bool {
+	if _, isPtr := fa.Type().Underlying().(*types.Pointer).Elem().Underlying().(*types.Pointer); !isPtr {
+		return false
+	}
+	n := 0
+	for _, ref := range *fa.Referrers() {
+		u, ok := ref.(*ssa.UnOp)
+		if !ok || u.Op != token.MUL {
+			if _, dbg := ref.(*ssa.DebugRef); dbg {
+				continue
+			}
+			return false
+		}
+		for _, r2 := range *u.Referrers() {
+			b, isB := r2.(*ssa.BinOp)
+			if !isB || (b.Op != token.EQL && b.Op != token.NEQ) || !(isNilConst(b.X) || isNilConst(b.Y)) {
+				if _, dbg := r2.(*ssa.DebugRef); dbg {
+					continue
+				}
+				return false
+			}
+			n++
+		}
+	}
+	return n > 0
+}
+
+// literalNilTests: a function literal (or named predicate) created in fn tests member pf of its parameter against nil
+func literalNilTests(fn *ssa.Function, pf *types.Var) bool {
+	found := false
+	var lits []*ssa.Function
+	allInstrs(fn, func(in ssa.Instruction) {
+		switch x := in.(type) {
+		case *ssa.MakeClosure:
+			lits = append(lits, x.Fn.(*ssa.Function))
+		case ssa.CallInstruction:
+			for _, a := range x.Common().Args {
+				if f, ok := stripConv(a).(*ssa.Function); ok && f.Blocks != nil {
+					lits = append(lits, f)
+				}
+			}
+		}
+	})
+	// … or handed to fn itself by its callers (segmentOf(…, missing func(*R) bool))
+	if currentWorld != nil {
+		res := NewResolver(currentWorld)
+		for _, ci := range callsIn(fn) {
+			if _, isParam := ci.Common().Value.(*ssa.Parameter); isParam && !ci.Common().IsInvoke() {
+				for _, cal := range res.Callees(ci) {
+					if cal.Blocks != nil {
+						lits = append(lits, cal)
+					}
+				}
+			}
+		}
+	}
+	for _, l := range lits {
+		allInstrs(l, func(in ssa.Instruction) {
+			b, ok := in.(*ssa.BinOp)
+			if !ok || (b.Op != token.EQL && b.Op != token.NEQ) || !isNilConst(b.Y) {
+				return
+			}
+			if f, _ := loadedField(stripConv(b.X)); f == pf {
+				found = true
+			}
+			if fv, isF := stripConv(b.X).(*ssa.Field); isF {
+				if f, _ := fieldOf(fv); f == pf {
+					found = true
+				}
+			}
+		})
+	}
+	return found
 }
